@@ -174,7 +174,10 @@ func (s *Stack) resolveStep(cur any, p string) any {
 	case map[string]any:
 		return c[p]
 	case map[string]string:
-		return c[p]
+		if v, ok := c[p]; ok {
+			return v
+		}
+		return nil
 	}
 
 	// Try numeric index for slices and arrays
